@@ -53,6 +53,11 @@ IMaxRange(f, lo, hi) ==
     IF lo = hi THEN f[lo]
     ELSE LET mid == (lo + hi) \div 2 IN Max(IMaxRange(f, lo, mid), IMaxRange(f, mid + 1, hi))
 IMaxTo(f, n) == IMaxRange(f, 1, n)
+RECURSIVE IMinRange(_, _, _)
+IMinRange(f, lo, hi) ==
+    IF lo = hi THEN f[lo]
+    ELSE LET mid == (lo + hi) \div 2 IN Min(IMinRange(f, lo, mid), IMinRange(f, mid + 1, hi))
+IMinTo(f, n) == IMinRange(f, 1, n)
 
 \* ----------------------------------------------------------- index algebra
 \* 0-based multi-indices, row-major (C order)
